@@ -110,7 +110,7 @@ static double maxUlp(const V& a, const V& b, int n)
 }
 
 static void residualSet(Out& o, const std::string& pre, const Level& lvl, const Problem& p, bool dirbc, int threads,
-                        bool onlyCached)
+                        bool onlyCached, const std::string& TS = "")
 {
     const PolarGrid& g    = lvl.grid();
     const LevelCache& lc  = lvl.levelCache();
@@ -119,11 +119,11 @@ static void residualSet(Out& o, const std::string& pre, const Level& lvl, const 
                       (lc.cacheDomainGeometry() ? "1" : "0");
     {
         ResidualGive R(g, lc, *p.geo, *p.coef, dirbc, threads);
-        extractA(o, pre + "A_give" + tag, R, N);
+        extractA(o, pre + "A_give" + tag + TS, R, N);
     }
     if (lc.cacheDensityProfileCoefficients() && lc.cacheDomainGeometry()) {
         ResidualTake R(g, lc, *p.geo, *p.coef, dirbc, threads);
-        extractA(o, pre + "A_take11", R, N);
+        extractA(o, pre + "A_take11" + TS, R, N);
     }
     (void)onlyCached;
 }
@@ -269,35 +269,51 @@ static void extractOp(Out& o, const std::string& name, F&& apply, int nin, int n
     T.write(o, name, nout, nin);
 }
 
+static void runThreaded(const Case& c, Out& o, const Problem& p, const PolarGrid& grid, const std::string& what,
+                        const std::string& pre, const bool dirbc, const int N, const int threads, const bool first);
+
 static void runCase(const Case& c, Out& o)
 {
     const std::string id   = c.str("id", "case");
     const std::string pre  = id + "/";
     const std::string what = c.str("what", "geo,A");
     const bool dirbc       = c.i("dirbc", 0) != 0;
-    const int threads      = c.i("threads", 1);
-    Problem p              = Problem::fromCase(c);
-    PolarGrid grid         = gridFromCase(c);
-    const int N            = grid.numberOfNodes();
-    omp_set_num_threads(threads);
+    std::vector<int> tlist = c.iv("tlist");
+    if (tlist.empty())
+        tlist.push_back(c.i("threads", 1));
+    Problem p      = Problem::fromCase(c);
+    PolarGrid grid = gridFromCase(c);
+    const int N    = grid.numberOfNodes();
 
     if (has(what, "geo"))
         dumpGeo(o, pre, grid, p, dirbc);
+
+    for (size_t ti = 0; ti < tlist.size(); ti++)
+        runThreaded(c, o, p, grid, what, pre, dirbc, N, tlist[ti], ti == 0);
+    o.scalar(pre + "done", 1.0);
+}
+
+static void runThreaded(const Case& c, Out& o, const Problem& p, const PolarGrid& grid, const std::string& what,
+                        const std::string& pre, const bool dirbc, const int N, const int threads, const bool first)
+{
+    // operators built and applied with `threads` OpenMP threads carry the suffix _T<threads> (none for 1 thread)
+    const std::string TS = threads > 1 ? "_T" + std::to_string(threads) : "";
+    omp_set_num_threads(threads);
 
     // ---------------- C03: all cache combinations on the finest level
     if (has(what, "A")) {
         for (int cc = 0; cc < 2; cc++)
             for (int cg = 0; cg < 2; cg++) {
                 Hierarchy H(grid, p, cc, cg, 1);
-                residualSet(o, pre, H[0], p, dirbc, threads, false);
+                residualSet(o, pre, H[0], p, dirbc, threads, false, TS);
             }
     }
     if (has(what, "A11")) {
         Hierarchy H(grid, p, true, true, 1);
-        residualSet(o, pre, H[0], p, dirbc, threads, false);
+        residualSet(o, pre, H[0], p, dirbc, threads, false, TS);
     }
     // ---------------- C03: every level of the coarsening chain, caches built as setup() builds them
-    if (has(what, "chain")) {
+    if (has(what, "chain") && first) {
         int maxLevels = c.i("levels", 6);
         int nl        = 1;
         {
@@ -364,7 +380,7 @@ static void runCase(const Case& c, Out& o)
         Hierarchy H(grid, p, true, true, 1);
         const Level& L = H[0];
         for (int give = 0; give < 2; give++) {
-            std::string nm = pre + (give ? "X_give" : "X_take");
+            std::string nm = pre + (give ? "X_give" : "X_take") + TS;
             std::unique_ptr<DirectSolver> ds;
             const SparseMatrixCSR<double>* M = nullptr;
             if (give) {
@@ -416,7 +432,7 @@ static void runCase(const Case& c, Out& o)
                     continue;
                 Hierarchy H(grid, p, cc, cg, 1);
                 const Level& L  = H[0];
-                std::string tag = std::to_string(cc) + std::to_string(cg);
+                std::string tag = std::to_string(cc) + std::to_string(cg) + TS;
                 {
                     SmootherGive S(L.grid(), L.levelCache(), *p.geo, *p.coef, dirbc, threads);
                     dumpSmootherLines(o, pre + "Asc_give" + tag, S, L.grid(), dirbc);
@@ -451,20 +467,20 @@ static void runCase(const Case& c, Out& o)
             auto ap = [&](Vector<double>& x, Vector<double>& f, Vector<double>& t) {
                 S.extrapolatedSmoothing(x, f, t);
             };
-            extractSB<ExtrapolatedSmootherGive>(o, pre + "Es_give", ap, N);
-            coarseBitwise(o, pre + "Es_give", ap, L.grid(), seed);
+            extractSB<ExtrapolatedSmootherGive>(o, pre + "Es_give" + TS, ap, N);
+            coarseBitwise(o, pre + "Es_give" + TS, ap, L.grid(), seed);
         }
         {
             ExtrapolatedSmootherTake S(L.grid(), L.levelCache(), *p.geo, *p.coef, dirbc, threads);
             auto ap = [&](Vector<double>& x, Vector<double>& f, Vector<double>& t) {
                 S.extrapolatedSmoothing(x, f, t);
             };
-            extractSB<ExtrapolatedSmootherTake>(o, pre + "Es_take", ap, N);
-            coarseBitwise(o, pre + "Es_take", ap, L.grid(), seed);
+            extractSB<ExtrapolatedSmootherTake>(o, pre + "Es_take" + TS, ap, N);
+            coarseBitwise(o, pre + "Es_take" + TS, ap, L.grid(), seed);
         }
     }
     // ---------------- C08 / C09: grid transfer on the pair (level 0, level 1)
-    if (has(what, "T")) {
+    if (has(what, "T") && first) {
         std::vector<std::optional<double>> cs;
         if (c.has("csplit"))
             cs.push_back(c.d("csplit"));
@@ -486,7 +502,6 @@ static void runCase(const Case& c, Out& o)
         extractOp(o, pre + "Jinj", [&](Vector<double>& y, const Vector<double>& x) { I.applyInjection(F, Cc, y, x); }, Nf, Nc);
         extractOp(o, pre + "Ffmg", [&](Vector<double>& y, const Vector<double>& x) { I.applyFMGInterpolation(Cc, F, y, x); }, Nc, Nf);
     }
-    o.scalar(pre + "done", 1.0);
 }
 
 int main(int argc, char** argv)
